@@ -183,6 +183,9 @@ func main() {
 		}
 		for i, f := range files {
 			rel, _ := filepath.Rel(abs, names[i])
+			if !strings.HasPrefix(rel, "cmd/") && !strings.Contains(rel, "internal/testutil/") {
+				addGlobalsReset(f)
+			}
 			rewriteFile(fset, f, info, rel)
 			isMain := f.Name.Name == "main" && strings.HasPrefix(rel, "cmd/")
 			if isMain {
@@ -207,6 +210,51 @@ func main() {
 	if len(rep.Unsupported) > 0 {
 		fatal("constructs the simulator cannot own:\n  %s", strings.Join(rep.Unsupported, "\n  "))
 	}
+}
+
+// addGlobalsReset appends `func init() { simrt.RegisterReset(func() { v = <its
+// initialiser>; ... }) }` for the package-level variables declared in f, so
+// that every simulated run starts from pristine process-global state (a cache
+// a change keeps in a package variable would otherwise leak between runs and
+// make a failure depend on the runs before it).
+func addGlobalsReset(f *ast.File) {
+	var body []ast.Stmt
+	for _, d := range f.Decls {
+		gd, ok := d.(*ast.GenDecl)
+		if !ok || gd.Tok != token.VAR {
+			continue
+		}
+		for _, sp := range gd.Specs {
+			vs := sp.(*ast.ValueSpec)
+			var lhs []ast.Expr
+			blank := false
+			for _, n := range vs.Names {
+				if n.Name == "_" {
+					blank = true
+				}
+				lhs = append(lhs, ast.NewIdent(n.Name))
+			}
+			if blank {
+				continue
+			}
+			switch {
+			case len(vs.Values) > 0:
+				body = append(body, &ast.AssignStmt{Lhs: lhs, Tok: token.ASSIGN, Rhs: vs.Values})
+			case vs.Type != nil:
+				for _, l := range lhs {
+					zero := &ast.StarExpr{X: &ast.CallExpr{Fun: ast.NewIdent("new"), Args: []ast.Expr{vs.Type}}}
+					body = append(body, &ast.AssignStmt{Lhs: []ast.Expr{l}, Tok: token.ASSIGN, Rhs: []ast.Expr{zero}})
+				}
+			}
+		}
+	}
+	if len(body) == 0 {
+		return
+	}
+	rep.Rewrites["globals-reset"] += len(body)
+	reset := &ast.FuncLit{Type: &ast.FuncType{Params: &ast.FieldList{}}, Body: &ast.BlockStmt{List: body}}
+	call := &ast.ExprStmt{X: &ast.CallExpr{Fun: sel("simrt", "RegisterReset"), Args: []ast.Expr{reset}}}
+	f.Decls = append(f.Decls, &ast.FuncDecl{Name: ast.NewIdent("init"), Type: &ast.FuncType{Params: &ast.FieldList{}}, Body: &ast.BlockStmt{List: []ast.Stmt{call}}})
 }
 
 func siteOf(fset *token.FileSet, pos token.Pos, rel string) string {
